@@ -51,7 +51,8 @@ def main():
                 dst = os.path.join(repo, d.get("place_in", "."), os.path.basename(src))
                 os.makedirs(os.path.dirname(dst), exist_ok=True)
                 shutil.copy(src, dst); placed.append(dst)
-            cmd = meta.get("demo_cmd", "")
+            import re as _re
+            cmd = _re.sub(r"cp out/\S+ \S+ *&& *", "", meta.get("demo_cmd", ""))
             denv = dict(goenv); denv["GOSUMDB"] = "off"; denv["GOTOOLCHAIN"] = "local"
             cmd2 = cmd.replace("go1.26.8 ", "go ").replace("GOTOOLCHAIN=local ", "")
             # run demos with go1.26.8 (local toolchain) - works offline in every case
@@ -86,15 +87,15 @@ def main():
         if save:
             dst = os.path.join("/verif/seeded", save)
             os.makedirs(dst, exist_ok=True)
+            prev = {}
+            if os.path.exists(os.path.join(dst, "meta.json")):
+                try: prev = json.load(open(os.path.join(dst, "meta.json"))).get("verif_eval", {})
+                except Exception: prev = {}
             for f in os.listdir(vdir):
                 src = os.path.join(vdir, f)
                 if os.path.isfile(src):
                     shutil.copy(src, os.path.join(dst, f))
             m = dict(meta)
-            prev = {}
-            if os.path.exists(os.path.join(dst, "meta.json")):
-                try: prev = json.load(open(os.path.join(dst, "meta.json"))).get("verif_eval", {})
-                except Exception: prev = {}
             ev = dict(prev)
             ev.update({k: res[k] for k in res if k in ("applies", "suite_passes_with_patch", "demo_fails_with_patch", "demo_passes_without_patch")})
             ev.setdefault("checks", {}).update({p: {"cmd": f"VERIF_REPO=<copy of /repo with patch.diff applied> bin/verifctl check {p} --tier {tier}" + (f" --runs {runs}" if runs else ""), "exit": c["exit"], "detected": c["exit"] == 1, "signatures": c["signatures"], "summary": c["done"]} for p, c in res["checks"].items()})
